@@ -97,5 +97,27 @@ def int_probes(pty, bits, signed):
     return sorted(out)
 
 
+def ternary_probes(pty, level=1):
+    """(a, b, c) triples for the fused family: exact-tie products with a tiny addend of either sign, exact cancellation, results next to
+    maxpos / minpos, plain small values"""
+    p = pty.posit
+    m = p.mask
+    one = pty.one
+    V = [one, one + 1, one + 3, p.encode(Fraction(3, 2)), p.encode(Fraction(2)), p.encode(Fraction(3)), p.encode(Fraction(4)),
+         p.encode(Fraction(1, 2)), p.encode(Fraction(1, 3)), p.maxpos_bits, p.maxpos_bits - 1, 1, 2, one - 1]
+    if level > 1:
+        V += [one + 2, p.encode(Fraction(5, 2)), p.encode(Fraction(10)), p.maxpos_bits - 2, 3, p.encode(Fraction(7))]
+    V = sorted(set(V))
+    Vs = V + [(-v) & m for v in (one, p.encode(Fraction(4)), p.encode(Fraction(3, 2)), p.maxpos_bits - 1, 1)]
+    out = set()
+    for a in Vs:
+        for b in V:
+            prod = p.decode(a) * p.decode(b)
+            cs = {1, m, one, (-one) & m, p.maxpos_bits - 1, (-(p.maxpos_bits - 1)) & m, p.encode(Fraction(2)), (-p.encode(prod)) & m, p.encode(prod)}
+            for c in cs:
+                out.add((a, b, c))
+    return sorted(out)
+
+
 def singles(vals):
     return [(v, v) for v in vals]
